@@ -296,11 +296,11 @@ macro_rules! txout {
 }
 //@begin prop=C01 tier=quick secp=1 mem=12 timeout=2400 desc="TxOut decode->encode exact per (asset,value,nonce) layout class, script <= 2 bytes, all truncations; classes cover every prefix byte"
 txout!(txout_1_1_1, 1, 1, 1);
-txout!(txout_33_9_1, 33, 9, 1); //@ mem=20
-txout!(txout_33_33_33, 33, 33, 33); //@ mem=20
+txout!(txout_1_9_1, 1, 9, 1);
 //@end
 //@begin prop=C01 tier=thorough secp=1 mem=20 timeout=3000 desc="TxOut decode->encode exact, remaining layout classes"
-txout!(txout_1_9_1, 1, 9, 1);
+txout!(txout_33_9_1, 33, 9, 1);
+txout!(txout_33_33_33, 33, 33, 33);
 txout!(txout_33_9_33, 33, 9, 33);
 txout!(txout_1_33_1, 1, 33, 1);
 txout!(txout_33_1_1, 33, 1, 1);
